@@ -157,6 +157,7 @@ def run(ctx):
         else:
             ctx.inst("C01.R1", key, False, "variable index into args (use .get and report an error)", bic.loc(b))
     # closures inside arms that capture args
+    bic_args_name = H.param_by_type(core.hir_fn(BCALL), "Vec<blots_core::values::Value>", "args")
     for cn, arm in sorted(closure_parent_arm.items()):
         if cn not in cg.fns:
             continue
@@ -165,7 +166,8 @@ def run(ctx):
             c = cf.callee(b) or ""
             if c.endswith("as core::ops::index::Index<I>>::index") and "alloc::vec::Vec<blots_core::values::Value>" in cf.term(b)["argtys"][0] and "int" in cf.term(b)["args"][1]:
                 # an upvar of type &Vec<Value> named args
-                up = [n for n, plc in cg.fns[cn].get("debug", []) if n == "args"]
+                # the indexed Vec<Value> is a captured variable of the closure (the arm's argument vector)
+                up = [n for n, plc in cg.fns[cn].get("debug", []) if n == bic_args_name]
                 if not up:
                     continue
                 val = int(cf.term(b)["args"][1]["int"])
